@@ -24,6 +24,8 @@ class C15(CacheProp):
             if rng.random() < 0.6:
                 c.ops += ["wait"] if rng.random() < 0.3 else []
                 c.ops += ["clear", "tok", "tok", "tok", "dump", "rem", "metrics", "iter"]
+                # the admission filter restarts too: every frequency estimate is 0 after Clear
+                c.ops += [o.replace("est ", "estcheck ", 1).rsplit(" ", 1)[0] for o in c.ops if o.startswith("est ")][:8]
                 if rng.random() < 0.6:
                     # a second life after Clear: inserts, an overwrite, a delete, drained; then the counters must relate to
                     # the accounting as on a fresh cache (the conservation laws of C17, applied after the Clear)
@@ -59,6 +61,7 @@ class C15(CacheProp):
         pending_clear = None
         dirty = False              # any Set since the last completed Clear
         blocked_waits = set()
+        est_set_since_clear = False
         for st in tr.steps:
             op, res = st["op"], st["res"]
             if op[0] == "updmax":
@@ -76,6 +79,8 @@ class C15(CacheProp):
             blocked_waits -= set(st["done"])
             if op[0] == "set" and res[:1] == ["true"]:
                 dirty = True
+            if op[0] in ("est", "get"):
+                est_set_since_clear = True    # white-box est and (through the Get ring) Gets raise estimates again
             if op[0] in ("clear", "close"):
                 if res[:1] == ["blocked"]:
                     if op[0] == "clear":
@@ -84,13 +89,13 @@ class C15(CacheProp):
                         pending_close = str(st["n"])
                 else:
                     if op[0] == "clear":
-                        clear_done, dirty = st["n"], False
+                        clear_done, dirty, est_set_since_clear = st["n"], False, False
                     else:
                         closed_at = st["n"]
                     if blocked_waits:
                         fails.append("op %d: %s returned but Wait calls %s are still blocked" % (st["n"], op[0], sorted(blocked_waits)))
             if pending_clear and pending_clear in st["done"]:
-                clear_done, dirty, pending_clear = st["n"], False, None
+                clear_done, dirty, pending_clear, est_set_since_clear = st["n"], False, None, False
             if pending_close and pending_close in st["done"]:
                 closed_at, pending_close = st["n"], None
             if clear_done is not None and not dirty and st["n"] > clear_done:
@@ -102,6 +107,8 @@ class C15(CacheProp):
                     fails.append("op %d: after Clear RemainingCost=%s, MaxCost=%d" % (st["n"], res[0], max_cost))
                 if op[0] == "iter" and res != ["-"]:
                     fails.append("op %d: after Clear IterValues yields %s" % (st["n"], res))
+                if op[0] == "estcheck" and not est_set_since_clear and res != ["0"]:
+                    fails.append("op %d: after Clear the frequency estimate of %s is %s (a fresh cache has 0)" % (st["n"], op[1], res[0] if res else "?"))
                 if op[0] == "metrics" and res[:1] != ["nil"] and any(int(x) != 0 for x in res[2:9]):
                     fails.append("op %d: after Clear the metrics are not reset: %s" % (st["n"], res))
         # "accepts and serves new writes as a fresh one would": the counters that restart at Clear obey the conservation
